@@ -285,6 +285,62 @@ func evalFact(repo, kind, dir, goName, leanName string, full bool) (string, erro
 			items = append(items, s)
 		}
 		return fmt.Sprintf("def %s : List %s := [%s]\n", leanName, ty, strings.Join(items, ", ")), nil
+	case "orflags":
+		// orflags <pkg dir> <Func>.<var> <leanName>: the operand names of the `a | b | c` expression first assigned
+		// (`:=`) to local variable <var> in function or method <Func> — a syntactic fact (which open flags a
+		// system call is given), written to the second generated module (SourceFacts).
+		parts := strings.SplitN(goName, ".", 2)
+		if len(parts) != 2 {
+			return "", fmt.Errorf("orflags wants Func.var")
+		}
+		var names []string
+		found := false
+		for _, f := range pi.files {
+			for _, d := range f.Decls {
+				fd, ok := d.(*ast.FuncDecl)
+				if !ok || fd.Name.Name != parts[0] || fd.Body == nil || found {
+					continue
+				}
+				ast.Inspect(fd.Body, func(n ast.Node) bool {
+					as, ok := n.(*ast.AssignStmt)
+					if !ok || found || as.Tok.String() != ":=" || len(as.Lhs) != 1 || len(as.Rhs) != 1 {
+						return true
+					}
+					if id, ok := as.Lhs[0].(*ast.Ident); !ok || id.Name != parts[1] {
+						return true
+					}
+					found = true
+					var walk func(e ast.Expr) bool
+					walk = func(e ast.Expr) bool {
+						switch x := e.(type) {
+						case *ast.BinaryExpr:
+							return x.Op.String() == "|" && walk(x.X) && walk(x.Y)
+						case *ast.ParenExpr:
+							return walk(x.X)
+						case *ast.SelectorExpr:
+							names = append(names, x.Sel.Name)
+							return true
+						case *ast.Ident:
+							names = append(names, x.Name)
+							return true
+						}
+						return false
+					}
+					if !walk(as.Rhs[0]) {
+						names = append(names, "<not-an-or-of-names>")
+					}
+					return false
+				})
+			}
+		}
+		if !found {
+			return "", fmt.Errorf("no assignment %s := … in %s", parts[1], parts[0])
+		}
+		var q []string
+		for _, n := range names {
+			q = append(q, strconv.Quote(n))
+		}
+		return fmt.Sprintf("def %s : List String := [%s]\n", leanName, strings.Join(q, ", ")), nil
 	}
 	return "", fmt.Errorf("bad kind %q", kind)
 }
@@ -292,6 +348,7 @@ func evalFact(repo, kind, dir, goName, leanName string, full bool) (string, erro
 func main() {
 	repo := flag.String("repo", "/repo", "repository root")
 	out := flag.String("o", "", "output file")
+	out2 := flag.String("o2", "", "output file for the syntactic facts (kind orflags): module Mutagen.Generated.SourceFacts")
 	flag.Parse()
 	self, _ := os.Executable()
 	specDir := os.Getenv("VERIF_SPECS")
@@ -300,6 +357,8 @@ func main() {
 	}
 	specs, _ := filepath.Glob(filepath.Join(specDir, "*.txt"))
 	sort.Strings(specs)
+	var b2 strings.Builder
+	b2.WriteString("/- GENERATED by harness/cmd/extract (syntactic facts about function bodies) from the Go sources of the\n   repository under test on every run of ./check. Do not edit. -/\nnamespace Mutagen.SourceFacts\n\n")
 	var b strings.Builder
 	b.WriteString("/- GENERATED by harness/cmd/extract from the Go sources of the repository under\n   test on every run of ./check. Do not edit. -/\nnamespace Mutagen.Facts\n\n")
 	failed := 0
@@ -308,7 +367,7 @@ func main() {
 		if err != nil {
 			continue
 		}
-		fmt.Fprintf(&b, "-- %s\n", filepath.Base(sp))
+		wrote := false // the header goes into Facts.lean only for spec files that contribute to it
 		sc := bufio.NewScanner(f)
 		for sc.Scan() {
 			line := strings.TrimSpace(sc.Text())
@@ -330,12 +389,29 @@ func main() {
 				failed++
 				continue
 			}
-			b.WriteString(text)
+			if fs[0] == "orflags" {
+				b2.WriteString(text)
+			} else {
+				if !wrote {
+					fmt.Fprintf(&b, "-- %s\n", filepath.Base(sp))
+					wrote = true
+				}
+				b.WriteString(text)
+			}
 		}
 		f.Close()
-		b.WriteString("\n")
+		if wrote {
+			b.WriteString("\n")
+		}
 	}
 	b.WriteString("end Mutagen.Facts\n")
+	b2.WriteString("\nend Mutagen.SourceFacts\n")
+	if *out2 != "" && failed == 0 {
+		if err := os.WriteFile(*out2, []byte(b2.String()), 0o644); err != nil {
+			fmt.Fprintln(os.Stderr, err)
+			os.Exit(1)
+		}
+	}
 	if failed > 0 {
 		fmt.Fprintf(os.Stderr, "%d fact(s) could not be extracted\n", failed)
 		os.Exit(1)
